@@ -471,7 +471,7 @@ fn run_item(tier: Tier, it: &Items, i: usize, acc: &mut JsonAcc) {
 
 pub fn run(ctx: &Ctx) -> i32 {
     let it = items(ctx.tier);
-    let (acc, crashes) = procpar::parent(ctx, it.items.len(), ctx.tier.pick(35.0, 560.0), &[]);
+    let (acc, crashes) = procpar::parent(ctx, it.items.len(), ctx.tier.pick(90.0, 1800.0), &[]);
     let mut report = Report::new();
     report.evaluations = acc.counters.get("executions").copied().unwrap_or(0);
     report.transitions = acc.counters.get("exchanges").copied().unwrap_or(0)
